@@ -502,11 +502,21 @@ pub struct ThreadObjs<'a> {
     /// and domain-separation tag into the same buffers for every call: same address, new contents)
     pub in_msg: Vec<u8>,
     pub in_dst: Vec<u8>,
+    /// number of operations this thread has evaluated: the reused input buffers hand their contents to
+    /// the library at byte offset `align_ctr % 8`, so the same call sees its byte-slice arguments at
+    /// another alignment than its isolated evaluation did (a pure function cannot tell)
+    pub align_ctr: usize,
 }
 impl<'a> ThreadObjs<'a> {
     pub fn new() -> Self {
-        ThreadObjs { o1: GObjs::new(), o2: GObjs::new(), in_msg: Vec::with_capacity(512), in_dst: Vec::with_capacity(512) }
+        ThreadObjs { o1: GObjs::new(), o2: GObjs::new(), in_msg: Vec::with_capacity(512), in_dst: Vec::with_capacity(512), align_ctr: 0 }
     }
+}
+/// put `data` into the reused buffer behind `off` pad bytes; the slice to pass on is `&buf[off..]`
+fn place(buf: &mut Vec<u8>, off: usize, data: &[u8]) {
+    buf.clear();
+    buf.resize(off, 0xA5);
+    buf.extend_from_slice(data);
 }
 
 /// wNAF contexts shared between threads of one run through a lock
@@ -580,7 +590,7 @@ fn group_op<'a, G: Grp>(
     sh_t256: &[Vec<G::Affine>],
     sctx: &[Mutex<Ctx<G>>],
     o: &mut GObjs<'a, G>,
-    scratch: (&mut Vec<u8>, &mut Vec<u8>),
+    scratch: (&mut Vec<u8>, &mut Vec<u8>, usize),
     out: &mut Vec<u8>,
     claims: &mut Vec<Claim>,
 ) -> bool
@@ -645,7 +655,8 @@ where
             img_proj(&t2, out);
         }
         "batchnorm" => {
-            let n = 1 + a(1) % 6;
+            const BIG: [usize; 5] = [17, 64, 65, 257, 1030];
+            let n = if a(1) < 6 { 1 + a(1) } else { BIG[(a(1) - 6) % BIG.len()] };
             let mut v: Vec<G> = (0..n).map(|i| G::proj(a(0) + i)).collect();
             G::batch_normalization(&mut v);
             for p in &v {
@@ -835,6 +846,33 @@ where
             img_proj(&r, out);
             claim(claims, p, a(1), &r, "precomp_256 into a reused buffer, then mul_precomp_256");
         }
+        "pre3_pack" | "pre256_pack" => {
+            // tables of two points kept back to back in one caller buffer (the layout
+            // sum_of_products_precomp_256 documents), filled back to front through open-ended
+            // sub-slices: the second precomputation must write its own 3 / 256 entries only
+            let n = if name == "pre3_pack" { 3 } else { 256 };
+            let (pa, pb) = (a(0) % G::nsub(), a(2) % G::nsub());
+            let mut buf = vec![G::aff(1); 2 * n + 5];
+            if name == "pre3_pack" {
+                G::aff(pb).precomp_3(&mut buf[n..]);
+                G::aff(pa).precomp_3(&mut buf[..]);
+            } else {
+                G::aff(pb).precomp_256(&mut buf[n..]);
+                G::aff(pa).precomp_256(&mut buf[..]);
+            }
+            let (ra, rb) = if name == "pre3_pack" {
+                (G::aff(pa).mul_precomp_3(FrRepr(scalar(a(1))), &buf[..n]), G::aff(pb).mul_precomp_3(FrRepr(scalar(a(1))), &buf[n..2 * n]))
+            } else {
+                (G::aff(pa).mul_precomp_256(FrRepr(scalar(a(1))), &buf[..n]), G::aff(pb).mul_precomp_256(FrRepr(scalar(a(1))), &buf[n..2 * n]))
+            };
+            img_proj(&ra, out);
+            img_proj(&rb, out);
+            for x in &buf[2 * n..] {
+                img_aff::<G>(x, out);
+            }
+            claim(claims, pa, a(1), &ra, "table at the head of a packed buffer");
+            claim(claims, pb, a(1), &rb, "table behind another table filled later through an open-ended slice");
+        }
         "pre256" => {
             let p = a(0) % G::nsub();
             let mut t = vec![G::Affine::zero(); 256];
@@ -857,7 +895,10 @@ where
             }
         }
         "sop" | "pip" => {
-            let n = a(0) % 7;
+            // sizes 0..=6, then sizes around the powers of two where an implementation may switch algorithm,
+            // window or (for large inputs) to internal worker threads
+            const BIG: [usize; 11] = [31, 32, 33, 255, 256, 257, 1023, 1024, 1025, 1536, 4099];
+            let n = if a(0) < 7 { a(0) } else { BIG[(a(0) - 7) % BIG.len()] };
             let pts: Vec<G::Affine> = (0..n).map(|i| G::aff((a(1) + i) % G::nsub())).collect();
             let ks: Vec<[u64; 4]> = (0..n).map(|i| scalar(lt255_index(a(2) + 3 * i))).collect();
             let kr: Vec<&[u64; 4]> = ks.iter().collect();
@@ -943,11 +984,10 @@ where
             let d = &sp().dsts[a(2) % sp().dsts.len()];
             let p = if a(3) % 2 == 1 {
                 // through the caller's reused input buffers
-                scratch.0.clear();
-                scratch.0.extend_from_slice(m);
-                scratch.1.clear();
-                scratch.1.extend_from_slice(d);
-                G::h2c(a(0), &scratch.0[..], &scratch.1[..], name == "h2c")
+                let off = scratch.2 % 8;
+                place(scratch.0, off, m);
+                place(scratch.1, (off * 5 + 3) % 8, d);
+                G::h2c(a(0), &scratch.0[off..], &scratch.1[(off * 5 + 3) % 8..], name == "h2c")
             } else {
                 G::h2c(a(0), m, d, name == "h2c")
             };
@@ -986,12 +1026,13 @@ pub fn eval<'a>(op: &Op, sh: &Shared, rs: &RunShared, tl: &mut ThreadObjs<'a>) -
     let mut claims = vec![];
     let p = sp();
     let a = |i: usize| op.arg(i);
+    tl.align_ctr += 1;
     if let Some(name) = op.k.strip_prefix("g1_") {
-        if group_op::<G1>(name, op, &sh.t3_g1, &sh.t256_g1, &rs.sctx1, &mut tl.o1, (&mut tl.in_msg, &mut tl.in_dst), &mut out, &mut claims) {
+        if group_op::<G1>(name, op, &sh.t3_g1, &sh.t256_g1, &rs.sctx1, &mut tl.o1, (&mut tl.in_msg, &mut tl.in_dst, tl.align_ctr), &mut out, &mut claims) {
             return OpOut { image: out, claims };
         }
     } else if let Some(name) = op.k.strip_prefix("g2_") {
-        if group_op::<G2>(name, op, &sh.t3_g2, &sh.t256_g2, &rs.sctx2, &mut tl.o2, (&mut tl.in_msg, &mut tl.in_dst), &mut out, &mut claims) {
+        if group_op::<G2>(name, op, &sh.t3_g2, &sh.t256_g2, &rs.sctx2, &mut tl.o2, (&mut tl.in_msg, &mut tl.in_dst, tl.align_ctr), &mut out, &mut claims) {
             return OpOut { image: out, claims };
         }
     }
@@ -1209,9 +1250,15 @@ pub fn eval<'a>(op: &Op, sh: &Shared, rs: &RunShared, tl: &mut ThreadObjs<'a>) -
                     let okm = <Xof as ExpandMsg>::expand_message(m, d, 1 + i % 300);
                     out.extend_from_slice(&okm);
                     let okm = <Xmd as ExpandMsg>::expand_message(m, d, 128);
+                    // the caller's buffer holds the bytes at an offset that changes along the thread's history
+                    let off = tl.align_ctr % 8;
+                    place(&mut tl.in_msg, off, &okm);
+                    let okm = &tl.in_msg[off..];
                     <Fq as FromRO>::from_ro(GenericArray::from_slice(&okm[..64])).img(&mut out);
                     <Fq2 as FromRO>::from_ro(GenericArray::from_slice(&okm[..128])).img(&mut out);
                     <Fr as FromRO>::from_ro(GenericArray::from_slice(&okm[..48])).img(&mut out);
+                    <Fq as pairing_plus::hash_to_field::BaseFromRO>::from_okm(GenericArray::from_slice(&okm[3..67])).img(&mut out);
+                    <Fr as pairing_plus::hash_to_field::BaseFromRO>::from_okm(GenericArray::from_slice(&okm[5..53])).img(&mut out);
                 }
                 7 => {
                     // map_to_curve called directly
@@ -1274,11 +1321,10 @@ pub fn eval<'a>(op: &Op, sh: &Shared, rs: &RunShared, tl: &mut ThreadObjs<'a>) -
         }
         "h2f" => {
             let (m, d): (&[u8], &[u8]) = if a(5) % 2 == 1 {
-                tl.in_msg.clear();
-                tl.in_msg.extend_from_slice(&p.msgs[a(2) % p.msgs.len()]);
-                tl.in_dst.clear();
-                tl.in_dst.extend_from_slice(&p.dsts[a(3) % p.dsts.len()]);
-                (&tl.in_msg[..], &tl.in_dst[..])
+                let off = tl.align_ctr % 8;
+                place(&mut tl.in_msg, off, &p.msgs[a(2) % p.msgs.len()]);
+                place(&mut tl.in_dst, (off * 5 + 3) % 8, &p.dsts[a(3) % p.dsts.len()]);
+                (&tl.in_msg[off..], &tl.in_dst[(off * 5 + 3) % 8..])
             } else {
                 (&p.msgs[a(2) % p.msgs.len()][..], &p.dsts[a(3) % p.dsts.len()][..])
             };
@@ -1320,7 +1366,7 @@ pub fn eval<'a>(op: &Op, sh: &Shared, rs: &RunShared, tl: &mut ThreadObjs<'a>) -
             f.img(&mut out);
         }
         "pairing_multi" => {
-            let n = a(0) % 4;
+            let n = [0usize, 1, 2, 3, 9, 17][a(0) % 6];
             let ps: Vec<G1Affine> = (0..n).map(|i| p.g1[(a(1) + i) % p.g1_nsub]).collect();
             let qs: Vec<G2Affine> = (0..n).map(|i| p.g2[(a(2) + i) % p.g2_nsub]).collect();
             Bls12::pairing_multi_product(&ps, &qs).img(&mut out);
